@@ -12,6 +12,24 @@ COMMON_NOTE = ("Trusted: Lean 4.33 kernel; axioms ⊆ {propext, Classical.choice
 
 # id -> (technique, level text, level note extra, design_ref)
 CHECKS = {
+    "C12": ("Lean 4 proof of the padding/slicing/lag bookkeeping around the FFT (circular convolution of zero-padded "
+            "inputs = full linear convolution for every transform size ≥ n1+n2-1; correlation lags; rfft/irfft lengths) "
+            "+ numerical correspondence over EVERY length 1..256 (1..1024 thorough) against float64 direct evaluation",
+            "Theorems fftconvolve_eq_lconv, fftconvolve_size_independent, lconv_get/length, correlate_lags (Nat and "
+            "integer-lag forms), correlate_eq_lconv, irfft_default_len (default inverse length = N iff N even), "
+            "ifftLen_roundtrip, padTo_*.",
+            "The transform pair (rocket-fft) enters only through the circular-convolution identity it implements; DFT "
+            "equality, Parseval and the round trip are validated numerically within an explicit float32 bound, not "
+            "proved.", "§5 C12"),
+    "C13": ("Lean 4 proof over ℚ that the roll/reverse/normalise/circular-product pipeline of convolve_templates is the "
+            "inner product of the data with the normalised template placed at t, and of the argmax + numerical "
+            "correspondence of every response value + normalised-correlation oracle",
+            "Theorems response_is_correlation (no reversal/misalignment left over), prepTemplate_get, argmaxFirst_spec, "
+            "peakOf_spec (first row-major maximum), correlation_add_const / correlation_scale / normTemplate_sum_zero "
+            "(affine invariance given zero-mean templates), correlation_sq_le (Cauchy–Schwarz bound).",
+            "Template normalisation constants (mean, root sum of squares) are parameters computed outside the model; "
+            "the FFT pair enters through the circular-convolution identity; z-scores are C15's; float32 FFT error is "
+            "bounded numerically, not proved.", "§5 C13"),
     "C17": ("Lean 4 proof by induction over update histories (invariant: every profile is the original rolled by the "
             "shifts on record) + differential correspondence after every call + fresh-cube oracle",
             "Theorems cube_after_history (the cube depends only on the LAST dm and period targets), history_irrelevant, "
